@@ -316,12 +316,13 @@ func (b Bearer) ValidPrincipal(now int64, host string) bool {
 
 // Req describes one HTTP request to the access API.
 type Req struct {
-	Route    string  `json:"route"`         // session deny allow listdeny listallow status notfound badmethod opaque
-	Method   string  `json:"method"`        // as sent
-	Target   string  `json:"target"`        // request target as sent (path and query)
-	ID       string  `json:"id,omitempty"`  // session: the id the router is expected to bind (url-decoded)
-	Bid      *string `json:"bid,omitempty"` // query bid as the binder will see it (nil = absent)
-	Exp      *string `json:"exp,omitempty"` // query exp raw (nil = absent)
+	Canon    string  `json:"canon,omitempty"` // the endpoint a non-canonical spelling aims at (oracles only)
+	Route    string  `json:"route"`           // session deny allow listdeny listallow status notfound badmethod opaque
+	Method   string  `json:"method"`          // as sent
+	Target   string  `json:"target"`          // request target as sent (path and query)
+	ID       string  `json:"id,omitempty"`    // session: the id the router is expected to bind (url-decoded)
+	Bid      *string `json:"bid,omitempty"`   // query bid as the binder will see it (nil = absent)
+	Exp      *string `json:"exp,omitempty"`   // query exp raw (nil = absent)
 	Auth     Bearer  `json:"auth"`
 	Headers  string  `json:"headers,omitempty"` // extra raw header lines (each ending in CRLF)
 	Body     string  `json:"body,omitempty"`
